@@ -1,7 +1,7 @@
 """C01 - no input crashes / corrupts memory: memory-safety clauses decidable from the code shape."""
 from ..report import Check
 from ..callgraph import CallGraph
-from ..rules import stack, nullness, progress
+from ..rules import stack, nullness, progress, driver
 
 CONFIGS = [("doc", "UTAP::DocumentBuilder"), ("query", "UTAP::TigaPropertyBuilder")]
 
@@ -17,6 +17,8 @@ def run(F, G, tier, seed):
             "class": cls, "productions": len(G.rules), "call_sites": sum(len(r.calls) for r in G.rules),
             "callback_summaries": len(T.I.cache), "fixpoint_rounds": T.rounds, "initial_depths": T.init,
             "grammar_counter": T.g}
+        if tag == "doc":
+            driver.run(chk, F, G, T)
     nullness.run(chk, F, CG)
     progress.run(chk, F, CG)
     chk.assume("functions without a body in the facts (libstdc++, libxml2, libc) raise no UTAP::TypeException")
